@@ -8,7 +8,7 @@ LEVEL = "exploration"
 RULE = (
     "(a) seeded yield-only Tasklang programs (no sync re-entry), deliberately unbalanced so that requests become "
     "issuable at different times, 1-4 batch kinds, errors, try/except (handlers that yield new sub-tasks), contexts, "
-    "shared tasks, re-yielded futures; all get_priority() policies. In-run probe inside on_before_batch_flush: every "
+    "shared tasks, re-yielded futures, and - with several kinds - flush bodies that raise after serving 0-2 items (the tasks that receive the flush error become runnable and may request other kinds); all get_priority() policies. In-run probe inside on_before_batch_flush: every "
     "task reachable from the awaited root has started, none is runnable (all futures of its pending yield computed), "
     "and each blocks only on tasks or unflushed items. Single-kind programs additionally: the sequence of flushed item "
     "sets equals the rounds of an independent round-based simulator (flush count = critical path). "
@@ -32,9 +32,9 @@ BASE = dict(
 )
 PROFILES = [
     gen.profile(kinds=1, **BASE),
-    gen.profile(kinds=2, **BASE),
-    gen.profile(kinds=3, **dict(BASE, w_leaf=dict(BASE["w_leaf"], dbg=0.6))),
-    gen.profile(kinds=4, **BASE),
+    gen.profile(kinds=2, p_flush_fault=0.35, **BASE),
+    gen.profile(kinds=3, p_flush_fault=0.2, **dict(BASE, w_leaf=dict(BASE["w_leaf"], dbg=0.6))),
+    gen.profile(kinds=4, p_flush_fault=0.2, **BASE),
 ]
 MONITORS = ("quiescence", "refeq", "resume")
 HOWS = ["call", "value", "yielded", "yielded_value"]
@@ -103,6 +103,8 @@ def run_unit(unit, progress):
             seqs.add(tuple(ev[1] for ev in rt.log if ev[0] == "flush_body"))
             if fl:
                 flushed = True
+            if prog.get("flush_faults") and any(ev[0] == "flush_raise" for ev in rt.log):
+                inc("runs_with_a_failing_flush")
             if single:
                 inc("critical_path_checks")
                 if fl != rounds:
